@@ -665,12 +665,28 @@ def witness_cases(rng):
            [("x", 9, 4, 4), ("x", 9, 5, 4)])
     c.files["i"] = b"".join(struct.pack("<i", v) for v in i8)
     W.append(c)
+    W.append(mk(900007, "a RAW FLOAT64 1\np PHASE a -2\n", {"a": a9},
+                ["raw 0 9 1 0 9 " + h(a9), "def a raw 0", "def p phase a -2"], [("p", 9, 1, 3)]))
+    c = mk(900008, "a RAW FLOAT64 1\nl LINTERP a table.txt\n", {"a": a9},
+           ["raw 0 9 1 0 9 " + h(a9), "def a raw 0", "def l linterp a 2 %x %x %x %x" % (dbits(0), dbits(0), dbits(1), dbits(1))],
+           [("l", 9, 0, 0)])
+    c.files["table.txt"] = b"0 0\n1 1\n"
+    W.append(c)
+    i20 = [0, 1] * 10
+    c = mk(900009, "a RAW FLOAT64 1\ni RAW INT32 1\np PHASE i 6\nx MPLEX a p 2 0\n", {"a": a20},
+           ["raw 0 9 1 0 20 " + h(a20), "raw 1 4 1 0 20 " + " ".join("%x" % v for v in i20), "def a raw 0", "def i raw 1",
+            "def p phase i 6", "def x mplex a p 2 0"], [("x", 9, 0, 1)])
+    c.files["i"] = b"".join(struct.pack("<i", v) for v in i20)
+    W.append(c)
     return W
 
 
 WITNESS_KEYS = {900001: "getdata/multirate-unaligned-start", 900002: "getdata/second-input-empty",
                 900003: "getdata/lincom-multirate-count", 900004: "getdata/raw-window-before-sample-zero",
-                900005: "getdata/raw-bof-pad-native-type", 900006: "getdata/mplex-multirate"}
+                900005: "getdata/raw-bof-pad-native-type", 900006: "getdata/mplex-multirate",
+                900007: "getdata/internal-sample-minus-one-taken-for-GD_HERE",
+                900008: "getdata/zero-length-buffer-internal-error",
+                900009: "getdata/mplex-lookback-reseek-range-error"}
 
 
 def main():
@@ -725,7 +741,7 @@ def main():
         for c in cases:
             if c.idx in WITNESS_KEYS:
                 for (q, im, model, spec, tags) in getattr(c, "res", []):
-                    if not same(im, spec, q[3], False) and same(im, model, q[3], True):
+                    if not same(im, spec, q[3], False) and (same(im, model, q[3], True) or "here" in tags):
                         chk.known_confirm(WITNESS_KEYS[c.idx], "witness %d reproduced" % c.idx)
         allcases += cases[:3]
         shutil.rmtree(broot, ignore_errors=True)
